@@ -1416,7 +1416,8 @@ def _derived_tables(mod) -> Dict[str, Any]:
                 it = g.iter
                 if isinstance(it, ast.Call) and isinstance(it.func, ast.Attribute) and it.func.attr == "items" and isinstance(it.func.value, ast.Name) and it.func.value.id in local_attr \
                         and isinstance(g.target, ast.Tuple) and len(g.target.elts) == 2 and all(isinstance(e, ast.Name) for e in g.target.elts) \
-                        and isinstance(st.value.key, ast.Name) and st.value.key.id == g.target.elts[0].id:
+                        and isinstance(st.value.key, ast.Name) and st.value.key.id == g.target.elts[0].id \
+                        and not any(isinstance(x, (ast.GeneratorExp, ast.ListComp, ast.SetComp, ast.DictComp, ast.Lambda)) for x in ast.walk(st.value.value)):
                     out[st.targets[0].attr] = (local_attr[it.func.value.id], g.target.elts[0].id, g.target.elts[1].id, st.value.value, dict(local_attr))
     _DERIVED_CACHE.clear()
     _DERIVED_CACHE[key] = out
